@@ -879,6 +879,12 @@ def shared_mechanisms(run: Run, prop: str, first: int, which: list):
                            'with C04.R2)')
             borrow(run, rule, c04.r2_eval, get_runtime(src))
             run.floor(rule, 10)
+        elif name == 'no-history':
+            from . import c09
+            run.rule(rule, 'nothing computed from one translation is kept where the next one finds it: process-global stores on the '
+                           'translation path are lazily initialised tables that depend on the class only (shared with C09.R4)')
+            borrow(run, rule, c09.r3_r4, src, get_callgraph(src), only_rules={'C09.R4'})
+            run.floor(rule, 5)
         elif name == 'current-values':
             from . import c08
             run.rule(rule, 'a reference evaluates to the value its cell has now for this object: no helper keeps a value between queries, '
